@@ -81,6 +81,7 @@ type pset struct {
 	sampleInBall                                        func(rho []byte) [256]uint32
 	rejectBounded                                       func(rho [66]byte) [256]uint32
 	coeffFromHalfByte                                   func(b byte) (uint32, bool)
+	expandMask                                          func(rho [64]byte, mu int) [][256]uint32
 }
 
 func mkset(name string) *pset {
@@ -98,6 +99,7 @@ func mkset(name string) *pset {
 	p.sampleInBall = func(rho []byte) [256]uint32 { return imldsa.VerifSampleInBall(par, rho) }
 	p.rejectBounded = func(rho [66]byte) [256]uint32 { return imldsa.VerifRejectBoundedPoly(par, rho) }
 	p.coeffFromHalfByte = func(b byte) (uint32, bool) { return imldsa.VerifCoeffFromHalfByte(par, b) }
+	p.expandMask = func(rho [64]byte, mu int) [][256]uint32 { return imldsa.VerifExpandMask(par, rho, mu) }
 	return p
 }
 
@@ -414,6 +416,15 @@ func runCase(f []string) string {
 		return polyHex(setOf(f[2]).rejectBounded(rho))
 	case "sib":
 		return polyHex(setOf(f[2]).sampleInBall(hx.UH(f[3])))
+	case "xm":
+		var rho [64]byte
+		copy(rho[:], hx.UH(f[3]))
+		mu, _ := strconv.Atoi(f[4])
+		var ps []string
+		for _, p := range setOf(f[2]).expandMask(rho, mu) {
+			ps = append(ps, polyHex(p))
+		}
+		return strings.Join(ps, ",")
 	case "par":
 		p := setOf(f[2])
 		return fmt.Sprintf("%d,%d,%d,%d,%d,%d,%d,%d,%d,%d,%d,%d,%d", p.tau, p.lambda, p.lg1, p.gamma2, p.k, p.l, p.eta, p.omega, p.etaBits, p.w1Bits, p.pkLen, p.skLen, p.sigLen)
@@ -839,7 +850,7 @@ func class(in, obs string) string {
 		return f[1] + ":" + f[2] + ":" + tag + ":" + short
 	case "bp", "bu":
 		return f[1] + ":" + f[3] + ":" + tag + ":" + short
-	case "hbp", "hbu", "rbp", "sib", "chb", "kg", "sg", "vf":
+	case "hbp", "hbu", "rbp", "sib", "chb", "kg", "sg", "vf", "xm":
 		return f[1] + ":" + f[2] + ":" + tag + ":" + short
 	case "ts", "tv":
 		return f[1] + ":" + f[2] + ":" + f[3] + ":" + tag + ":" + short
